@@ -202,8 +202,10 @@ func (n *nni) Undo() (err error) {
 	e2 = n.n2.Edges()[n12index]
 
 	// The root is somwhere in the
-	// clade on the n1_2 side (connected to n2)
-	if e2.Right() == n.n2 {
+	// clade on the n1_2 side (connected to n2),
+	// or in the clade that was moved to n1:
+	// in both cases it changes side of the n1-n2 edge
+	if e2.Right() == n.n2 || e1.Right() == n.n1 {
 		// Reorient n1-n2 edge
 		n.n1.Edges()[n1n2index].Inverse()
 	}
